@@ -43,6 +43,22 @@ CHECKS = {
         "discarded, decimals compared with tolerance 1e-9.",
         "DESIGN.md section 5 C02",
     ),
+    "C03": (
+        "property-based differential testing of scenario-fragment programs "
+        "(scoping and argument binding) against the reference evaluator; 12 "
+        "mutant models as non-triviality measure and generator self-test",
+        "Programs are composed from seven families of randomised fragments "
+        "(free variables under redefinition, assignment from callees, "
+        "closures outliving their frame, recursion, defaults, the argument "
+        "binding matrix, pipeline / method / prototype calls) with shadowing "
+        "names and 0-3 extra scope levels, and every fragment logs what it "
+        "observes; the log must equal the reference evaluator's. Per-mutant "
+        "kill counts (each wrong semantics is distinguished by >= 14 % of "
+        "the programs) are part of the evidence.",
+        "Trusted: the reference evaluator's environment and binding rules "
+        "(Appendix A of DESIGN.md); unspecified constructs are not generated.",
+        "DESIGN.md section 5 C03",
+    ),
     "C04": (
         "property-based differential testing of generated control-flow "
         "programs against the reference evaluator, with an in-program trace; "
